@@ -1031,6 +1031,35 @@ def lexers_check(fns, table):
                 b1, b2, b3, got, want = bad
                 report(f, ('runs-to-the-first-unescaped-line-end', 'at %r the body %s where the standard (22.5.1: a newline preceded by a backslash continues the text) wants %s' % (
                     bytes(b for b in (b1, b2, b3) if b is not None), 'stops' if got is None else 'consumes %s' % (got,), 'it to stop' if want is None else 'it to consume %s' % (want,))), props=('C05', 'C11'))
+    # ---- angle-bracket file name of `include <f>: from `<` to the first `>`
+    f = table.get('angle_bracket_literal_impl')
+    if f is None or not f.ast:
+        undecided.append('angle_bracket_literal_impl not found (anchor lost)')
+    else:
+        st = _lexer_steps(f)
+        checked += 1
+        if not (len(st) == 3 and _is_call(st[0], 'tag') and _is_call(st[1], 'is_not') and _is_call(st[2], 'tag') and all(_lit(x[2][0]) is not None for x in st)):
+            undecided.append('angle_bracket_literal_impl: not of the form tag(..) is_not(..) tag(..)')
+        else:
+            decided.add('angle_bracket_literal_impl')
+            got = (_lit(st[0][2][0]), bytes(sorted(set(_lit(st[1][2][0])))), _lit(st[2][2][0]))
+            if got != (b'<', b'>', b'>'):
+                report(f, ('runs-from-the-opening-to-the-first-closing-bracket', 'the file name of `include <f> is lexed as %r, a run stopping at %r, %r' % got), props=('C10', 'C09'))
+    # ---- the token wrappers attach the white space that follows (the same-line rule of `include and the kept-directive arms rely on it)
+    for wname, impl, props_ in (('angle_bracket_literal', 'angle_bracket_literal_impl', ('C10', 'C09')), ('string_literal', 'string_literal_impl', ('C10', 'C06')),
+                                ('escaped_identifier', 'escaped_identifier_impl', ('C06',))):
+        f = table.get(wname)
+        if f is None or not f.ast:
+            undecided.append('%s not found (anchor lost)' % wname)
+            continue
+        st = _lexer_steps(f)
+        checked += 1
+        if len(st) == 1 and st[0][0] == 'call' and st[0][1][0] == 'var' and st[0][1][1] in ('ws', 'no_ws') and st[0][2] == [('var', impl)]:
+            decided.add(wname)
+            if st[0][1][1] == 'no_ws':
+                report(f, ('takes-the-white-space-that-follows', '%s is built with no_ws(%s): the white space after the token is no longer part of it' % (wname, impl)), props=props_)
+        else:
+            undecided.append('%s: not of the form ws(%s)' % (wname, impl))
     # ---- comment = one_line_comment | block_comment
     f = table.get('comment')
     if f is not None and f.ast:
